@@ -1,6 +1,7 @@
 import GoSQLXModel.Driver.LoopsOp
 import GoSQLXModel.Driver.LspOp
 import GoSQLXModel.Driver.LintOp
+import GoSQLXModel.Driver.ScanOp
 /-! Dispatch table of the line-protocol driver. Each op parses its payload, runs the executable
     model and prints a canonical one-line answer. -/
 namespace GoSQLXModel.Driver
@@ -11,6 +12,7 @@ def dispatch (op payload : String) : String :=
   | "loops" => loopsOp payload
   | "lsp" => lspOp payload
   | "lintfix" => lintfixOp payload
+  | "scan" => scanOp payload
   | _ => "bad-op"
 
 end GoSQLXModel.Driver
